@@ -13,6 +13,12 @@ use muxide::assert_invariant;
 fn read_hex_bytes(contents: &str) -> Vec<u8> {
     let hex: String = contents.chars().filter(|c| !c.is_whitespace()).collect();
     assert!(hex.len() % 2 == 0, "hex must have even length");
+    // from_str_radix() also accepts a leading '+' sign: only hexadecimal digits are valid here
+    // (same rule as the validate command).
+    assert!(
+        hex.chars().all(|c| c.is_ascii_hexdigit()),
+        "hex input contains a non-hexadecimal character"
+    );
 
     let mut out = Vec::with_capacity(hex.len() / 2);
     for i in (0..hex.len()).step_by(2) {
